@@ -184,10 +184,14 @@ def serialize(disc: Disc, rng, shapes=("contiguous", "reversed", "random", "sort
             vol_files = []
             if v.dir_first:
                 nd0 = max(v.dir_sectors, nsectors(24 * (len(v.files) + 1)))
-                if v.dir_mode == "run":
-                    pre_dsecs = alloc.take_run(nd0)
-                    alloc.run(pre_dsecs, rng.choice([SAT_RES1, SAT_RES2]))
-                else:
+                run_ok = v.dir_mode == "run"
+                if run_ok:
+                    try:
+                        pre_dsecs = alloc.take_run(nd0)
+                        alloc.run(pre_dsecs, rng.choice([SAT_RES1, SAT_RES2]))
+                    except ValueError:  # no run of consecutive free sectors left: fall back to a chain
+                        run_ok = False
+                if not run_ok:
                     pre_dsecs = alloc.take(nd0, rng.choice(shapes))
                     alloc.chain(pre_dsecs)
             for f in v.files:
@@ -210,12 +214,19 @@ def serialize(disc: Disc, rng, shapes=("contiguous", "reversed", "random", "sort
             nd = max(v.dir_sectors, nsectors(len(table)))
             if pre_dsecs is not None:
                 dsecs = pre_dsecs
-            elif v.dir_mode == "run":
-                dsecs = alloc.take_run(nd)
-                alloc.run(dsecs, rng.choice([SAT_RES1, SAT_RES2]))
             else:
-                dsecs = alloc.take(nd, rng.choice(shapes))
-                alloc.chain(dsecs)
+                mode_used = v.dir_mode
+                dsecs = None
+                if v.dir_mode == "run":
+                    try:
+                        dsecs = alloc.take_run(nd)
+                        alloc.run(dsecs, rng.choice([SAT_RES1, SAT_RES2]))
+                    except ValueError:  # the free sectors are too fragmented for a run: use a chain instead
+                        dsecs = None
+                        mode_used = "chain"
+                if dsecs is None:
+                    dsecs = alloc.take(nd, rng.choice(shapes))
+                    alloc.chain(dsecs)
             info["dir_modes"].append(v.dir_mode)
             for vf in vol_files:
                 vf["dsecs"] = list(dsecs)
